@@ -369,7 +369,21 @@ class Handler(Shape):
         return SCallable(self.tag, outs, {"__name__": self.name_attr})
 
     def concretize(self, vals, name, made):
-        return {"t": "handler", "tag": self.tag}
+        # every outcome as a value the native stand-in can produce; WHICH one is used at each call comes
+        # from the witness ("handler_outcomes": the counterexample's choices in call order)
+        outs = []
+        for i, o in enumerate(self.outcomes):
+            if o[0] == "return":
+                try:
+                    outs.append({"kind": "return", "value": o[1].concretize(vals, "%s.out%d" % (name, i), None)})
+                except Exception:  # noqa
+                    outs.append({"kind": "return", "value": {"t": "none"}})
+            elif o[0] == "echo":
+                outs.append({"kind": "echo"})
+            else:
+                outs.append({"kind": "raise", "cls": o[1].__module__ + ":" + o[1].__qualname__,
+                             "args": [encode_concrete(a) for a in o[2]]})
+        return {"t": "handler", "tag": self.tag, "name": self.name_attr, "outcomes": outs}
 
 
 class NTuple(Shape):
